@@ -36,15 +36,7 @@ Proof.
       intros H; apply key_inj in H; auto. subst. rewrite id_eqb_refl in E. discriminate.
 Qed.
 
-Lemma active_fetch_ok : forall g f ids,
-  f_sealed f = false -> docs_wf (f_docs f) -> Forall id_u64 ids ->
-  frac_fetch g (compile f) ids = Ok (map (lookup f) ids).
-Proof.
-  intros g f ids Hs [_ Hw] Hu. unfold frac_fetch, frac_fetch_gen, compile. rewrite Hs. simpl. rewrite Hs.
-  f_equal. apply map_ext_in. intros x Hx. unfold lookup. apply build_act_find.
-  - eapply Forall_impl; [|exact Hw]. simpl. intros e [_ H]; exact H.
-  - rewrite Forall_forall in Hu. apply Hu in Hx. apply Hx.
-Qed.
+(* active_fetch_ok (through the position layer) is in ProofsPhys.v *)
 
 Lemma cf_compile : forall f, cf (compile f) = f.
 Proof. intros f; unfold compile; destruct (f_sealed f); reflexivity. Qed.
@@ -380,7 +372,7 @@ Section FetchDocs.
       2:{ intros d' Hi. apply HA in Hi. congruence. }
       destruct (expected_stored _ _ Ee) as [f [Hf [Hh Hl]]].
       assert (Hsk : In sk s) by (apply (Permutation_in _ Hperm); eapply nth_error_In; eauto).
-      rewrite Forall_forall in Hfw. destruct (Hfw f Hf) as [_ [Hn1 Hsound]].
+      rewrite Forall_forall in Hfw. destruct (Hfw f Hf) as [_ [Hn1 [Hsound _]]].
       assert (Hc : In (compile f) cand).
       { apply filter_In. split; [apply in_map; exact Hf|]. rewrite cf_compile.
         destruct (Hb sk Hsk). eapply Hsound; eauto. }
